@@ -292,9 +292,11 @@ def replay_case(line):
         else: hist.append((op, int(t[p + 1]), int(t[p + 2]))); p += 3
     # scalars of the linear combination from the pool (entry where x1 or x2 is non-zero)
     a = c = Fraction(0)
-    x1, x2, b1, b2, x3, b3 = vecs[1], vecs[2], vecs[3], vecs[4], vecs[5], vecs[6]
     import itertools
-    rows = list(zip(x1 + b1, x2 + b2, x3 + b3))
+    rows = []
+    if len(vecs) >= 7:
+        x1, x2, b1, b2, x3, b3 = vecs[1], vecs[2], vecs[3], vecs[4], vecs[5], vecs[6]
+        rows = list(zip(x1 + b1, x2 + b2, x3 + b3))
     for (p1, q1, r1), (p2, q2, r2) in itertools.combinations(rows, 2):
         det = p1 * q2 - p2 * q1
         if det != 0:
